@@ -130,6 +130,25 @@ CHECKS.update({
         note='BSD subclass filters only (statement scope); trace identity = (completing event, first event)',
         design='5/C13'),
 })
+CHECKS.update({
+    'C14': dict(
+        technique='TLC model checking of Format_MC (process column = latest declaration for the emitting thread, stated '
+                  'on the history, over all dumps of map-updating records; column composition over all 2^6 subsets); '
+                  'all 2^6 x colour configurations of four listings rendered from the code and checked for composition; '
+                  'process columns parsed from formatted lines validated against Pipeline!ProcCol at emission in TLC',
+        text='The "at that point of the stream" semantics is model-checked against a declarative history reading, and '
+             'the code is bound by validating the parsed process column of every formatted trace line.',
+        note='trailing whitespace not compared; plain event listing uses the thread map only (statement carve-out)',
+        design='5/C14'),
+    'C19': dict(
+        technique='TLC model checking of CodeTable_MC (exactly the pairs, last wins, spelling irrelevant); texts parsed '
+                  'by the code validated against CodeTable!FromText in TLC; streams decoded under supplied tables '
+                  '(omitted and permuted ids) validated against Pairing!Step with classes taken from the table',
+        text='Table text semantics enumerated on the design; the supplied-table indirection is bound by decoding under '
+             'permuted tables and validating every step.',
+        note='ids as canonical hex digit sequences (TLC ints are 32-bit); vmfault composite ids not permuted',
+        design='5/C19'),
+})
 PENDING = {}
 
 ALL = ['C%02d' % i for i in range(1, 21)]
